@@ -1,6 +1,6 @@
 """C08 — expressions are typed consistently; conversions are explicit or diagnosed (structural clauses)."""
 from kernel import *
-from sym import SymExec, show, deep_strip, strip_transparent, term_contains
+from sym import SymExec, show, deep_strip, strip_transparent, term_contains, term_contains_all
 from sema import *
 import inventory
 
@@ -54,6 +54,35 @@ def is_cast_to(term, target_pred):
     while isinstance(t, tuple) and t[0] == "call" and t[1].endswith("Cast::to_texpr"):
         t = t[2][0]
     return isinstance(t, tuple) and t[0] == "call" and t[1].endswith("Cast::new") and target_pred(deep_strip(t[2][1]))
+
+
+def binary_operand_slots(prog):
+    """(number of constructing paths, deviations): on every path of BinaryExpr::new_texpr_with_cast the result is
+    to_texpr(BinaryExpr::new(op, L, R), ..) with L built from parameter `left` only and R from `right` only
+    (possibly wrapped in Cast::new(.., ty).to_texpr()).  Used by C06 (operand order)."""
+    nw = prog.body(A + "BinaryExpr::new_texpr_with_cast")
+    if not nw:
+        return 0, ["anchor BinaryExpr::new_texpr_with_cast not found"]
+    n, bad = 0, []
+    for p in SymExec(prog, nw, inline=lambda c: "new_texpr_with_cast::{closure" in c).paths():
+        if "__diverged__" in p.env:
+            continue
+        n += 1
+        r = deep_strip(p.env.get(0))
+        if not (r[0] == "call" and r[1].endswith("BinaryExpr::to_texpr") and r[2][0][0] == "call" and r[2][0][1].endswith("BinaryExpr::new")):
+            bad.append(("shape", show(r)[:60]))
+            continue
+        be = r[2][0]
+        if show(deep_strip(be[2][0])) != "op":
+            bad.append(("operator", show(be[2][0])[:40]))
+        for side, term, want in (("left", be[2][1], "left"), ("right", be[2][2], "right")):
+            core = deep_strip(term)
+            while isinstance(core, tuple) and core[0] == "call" and (core[1].endswith("Cast::to_texpr") or core[1].endswith("Cast::new")):
+                core = deep_strip(core[2][0])      # the wrapped operand, not the target type
+            args_in = {x[2] for x in term_contains_all(core, lambda x: isinstance(x, tuple) and x[0] == "arg") if x[2] in ("left", "right")}
+            if args_in != {want}:
+                bad.append((side + "-slot-built-from", sorted(args_in)))
+    return n, bad
 
 
 def run(prog, R):
@@ -124,11 +153,38 @@ def run(prog, R):
         ok = rows.get(str(("eq", D["Qubit"])), "").startswith("Type::Bit(IsConst::False") and rows.get(str(("eq", D["HardwareQubit"])), "").startswith("Type::Bit(IsConst::False") \
             and rows.get(str(("eq", D["QubitArray"])), "").startswith("Type::BitArray(") and any(v.startswith("Type::Undefined") for k, v in rows.items() if k.startswith("('ne'"))
         R.ob("C08.2-measure-type", "Qubit|HardwareQubit -> Bit, QubitArray(d) -> BitArray(d), else Undefined", ok, mt.at, f"{rows}")
+    # ---- C08.3 common type of an arithmetic expression: implicit_cast_type is promote_types(ty1, ty2) for every
+    # arithmetic operator (integer division: Float when neither operand is a float)
+    ic = prog.body(A + "implicit_cast_type")
+    if ic:
+        OPS = {d: n for n, d in prog.enum_variants(A + "ArithOp")}
+        FLOAT = dict(prog.enum_variants(T + "Type")).get("Float")
+        seen_ops = {}
+        badt = []
+        for p in SymExec(prog, ic).paths():
+            if "__diverged__" in p.env:
+                continue
+            cs = {show(t): c for t, c in conds_of(p)}
+            opc = cs.get("discr(op)")
+            opn = OPS.get(opc[1]) if opc and opc[0] == "eq" else ("<other>" if opc else "<all>")
+            rv = show(deep_strip(p.env.get(0)))
+            seen_ops.setdefault(opn, set()).add(rv)
+            if rv == "promote_types(ty1, ty2)":
+                continue
+            both_nonfloat = cs.get("discr(ty1)") == ("ne", (FLOAT,)) and cs.get("discr(ty2)") == ("ne", (FLOAT,))
+            if opn == "Div" and both_nonfloat and rv == "Type::Float(Option::None, IsConst::False)":
+                continue
+            badt.append((opn, {k: v for k, v in cs.items() if k != "discr(op)"}, rv[:60]))
+        missing = sorted(set(OPS.values()) - set(seen_ops)) if "<other>" not in seen_ops and "<all>" not in seen_ops else []
+        R.ob("C08.3-common-type", "implicit_cast_type(op, ty1, ty2) = promote_types(ty1, ty2) for every arithmetic operator (int/int division: float)", not badt and not missing and len(seen_ops) >= 1, ic.at,
+             f"operators {sorted(seen_ops)}; deviating rows {badt[:3]}; operators without a row {missing}")
+    else:
+        R.ob("ANCHOR", A + "implicit_cast_type", False, "", "anchor function not found")
     # ---- C08.3 arithmetic operands wrapped
     nw = R.anchor(prog, A + "BinaryExpr::new_texpr_with_cast")
     if nw:
         bad, n = [], 0
-        for p in SymExec(prog, nw).paths():
+        for p in SymExec(prog, nw, inline=lambda c: "new_texpr_with_cast::{closure" in c).paths():
             if "__diverged__" in p.env:
                 continue
             r = deep_strip(p.env.get(0))
@@ -144,7 +200,21 @@ def run(prog, R):
             be, ty = r[2]
             L, Rr = be[2][1], be[2][2]
             okt = ty[0] == "call" and ty[1].endswith("implicit_cast_type")
-            for (side, term, (eqt, same)) in (("left", L, eqs[0]), ("right", Rr, eqs[1])):
+            def eq_for(operand):
+                # the comparison `promoted == get_type(<operand>)` of this path
+                c = [(t_, s_) for t_, s_ in eqs if any(x[2] == operand for x in term_contains_all(tuple(a for a in t_[2] if not (a[0] == "call" and a[1].endswith("implicit_cast_type"))), lambda x: isinstance(x, tuple) and x[0] == "arg"))]
+                return c[0] if len(c) == 1 else (None, None)
+            for side, term in (("left", L), ("right", Rr)):
+                core = deep_strip(term)
+                while isinstance(core, tuple) and core[0] == "call" and (core[1].endswith("Cast::to_texpr") or core[1].endswith("Cast::new")):
+                    core = deep_strip(core[2][0])
+                if not (isinstance(core, tuple) and core[0] == "arg"):
+                    bad.append((side, "operand is not a parameter", show(core)[:40]))
+                    continue
+                eqt, same = eq_for(core[2])
+                if eqt is None:
+                    bad.append((side, "no type comparison for operand", core[2]))
+                    continue
                 wrapped = is_cast_to(term, lambda x: x[0] == "call" and x[1].endswith("implicit_cast_type"))
                 raw = deep_strip(term)[0] == "arg"
                 if same and not raw or (not same and not wrapped):
@@ -152,6 +222,8 @@ def run(prog, R):
             if not okt:
                 bad.append(("type", show(ty)[:40]))
         R.ob("C08.3-operands-wrapped", "operand unwrapped iff its type == promoted type, else Cast(operand, promoted); result type = promoted", not bad and n == 4, nw.at, f"{n} arithmetic paths; {bad[:3]}")
+    R.premises(prog, "C08.4-premise", ["C20:C20.5-", "C20:C20.2-width-table", "C20:C20.2-is_const-table", "C20:C20.4-"],
+               "the justification rule accepts `equal_up_to_constness(target, value)` and `can_cast_literal` as written: their decision tables must be the ones C20 checks")
     # ---- C08.4 justification on all paths
     cd = R.anchor(prog, S2S + "classical_declaration_statement_to_asg_stmt")
     if cd:
